@@ -340,27 +340,42 @@ Definition msg_fn_failed (n m : str) : str := U "BareScript: Function """ ++ n +
 (* the result of exec: the outcome, the (possibly updated) locals, the world *)
 Definition xres := (outcome * option env * world)%type.
 
-Fixpoint eval (fuel : nat) (e : expr) (loc : option env) (bi : bool) (um : umode) (w : world) {struct fuel} : outcome * world :=
-  match fuel with
-  | O => (OFuel, w)
-  | S f =>
+(* call arguments, left to right, threading the world; stops at the first non-value outcome *)
+Fixpoint eval_args (ev : expr -> option env -> bool -> umode -> world -> outcome * world) (loc : option env) (bi : bool) (um : umode)
+         (l : list expr) (w0 : world) (acc : list value) : (outcome + list value) * world :=
+  match l with
+  | [] => (inr (rev acc), w0)
+  | a :: t =>
+    match ev a loc bi um w0 with
+    | (OVal v, w1) => eval_args ev loc bi um t w1 (v :: acc)
+    | (o, w1) => (inl o, w1)
+    end
+  end.
+
+(* The three mutually recursive functions are written as NON-recursive bodies over their recursive calls,
+   so that each has a one-step unfolding equation that holds by reflexivity (Proofs/Interp.v). *)
+Definition evalT := expr -> option env -> bool -> umode -> world -> outcome * world.
+Definition callT := value -> list value -> umode -> world -> outcome * world.
+Definition execT := list stmt -> nat -> list (str * nat) -> option env -> umode -> world -> xres.
+
+Definition eval_body (ev : evalT) (cl : callT) (e : expr) (loc : option env) (bi : bool) (um : umode) (w : world) : outcome * world :=
     match e with
     | ENum n => (OVal (VNum n), w)
     | EStr s => (OVal (VStr s), w)
     | EVar x => (OVal (lookup_var x loc w), w)
-    | EGroup e1 => eval f e1 loc bi um w
+    | EGroup e1 => ev e1 loc bi um w
     | EUn op e1 =>
-      match eval f e1 loc bi um w with
+      match ev e1 loc bi um w with
       | (OVal v, w1) => (OVal (unop op w1 v), w1)
       | other => other
       end
     | EBin op l r =>
-      match eval f l loc bi um w with
+      match ev l loc bi um w with
       | (OVal lv, w1) =>
-        if op_is op "&&" then (if truthy w1 lv then eval f r loc bi um w1 else (OVal lv, w1))
-        else if op_is op "||" then (if truthy w1 lv then (OVal lv, w1) else eval f r loc bi um w1)
+        if op_is op "&&" then (if truthy w1 lv then ev r loc bi um w1 else (OVal lv, w1))
+        else if op_is op "||" then (if truthy w1 lv then (OVal lv, w1) else ev r loc bi um w1)
         else
-          match eval f r loc bi um w1 with
+          match ev r loc bi um w1 with
           | (OVal rv, w2) => (binop op w2 lv rv, w2)
           | other => other
           end
@@ -371,47 +386,34 @@ Fixpoint eval (fuel : nat) (e : expr) (loc : option env) (bi : bool) (um : umode
         let value_expr := nth_error args 0 in
         let true_expr := nth_error args 1 in
         let false_expr := nth_error args 2 in
-        match (match value_expr with Some ve => eval f ve loc bi um w | None => (OVal (VBool false), w) end) with
+        match (match value_expr with Some ve => ev ve loc bi um w | None => (OVal (VBool false), w) end) with
         | (OVal v, w1) =>
           match (if truthy w1 v then true_expr else false_expr) with
-          | Some re => eval f re loc bi um w1
+          | Some re => ev re loc bi um w1
           | None => (OVal VNull, w1)
           end
         | other => other
         end
       else
         (* arguments, left to right *)
-        let fix eval_args (l : list expr) (w0 : world) (acc : list value) : (outcome + list value) * world :=
-          match l with
-          | [] => (inr (rev acc), w0)
-          | a :: t =>
-            match eval f a loc bi um w0 with
-            | (OVal v, w1) => eval_args t w1 (v :: acc)
-            | (o, w1) => (inl o, w1)
-            end
-          end in
-        match eval_args args w [] with
+        match eval_args ev loc bi um args w [] with
         | (inl o, w1) => (o, w1)
         | (inr vs, w1) =>
           match lookup_fn name loc bi w1 with
           | None | Some VNull => (ORt (msg_undefined_fn name), w1)
           | Some fv =>
-            (* try: return func_value(func_args, options)  except BareScriptRuntimeError: raise  except Exception: log; null / return_value *)
-            match call f fv vs um w1 with
+            (* try: return func_value(func_args, options)  except (BareScriptRuntimeError, BareScriptParserError): raise
+               except Exception: log; null / return_value *)
+            match cl fv vs um w1 with
             | (OExc ret msg, w2) => (OVal ret, log_if (c_debug cfg) w2 (msg_fn_failed name msg))
-            | (OParse pe u, w2) => (OVal VNull, log_if (c_debug cfg) w2 (msg_fn_failed name (e_msg pe)))
             | other => other
             end
           end
         end
-    end
-  end
+    end.
 
 (* func_value(args, options): a raw call, no handler *)
-with call (fuel : nat) (fv : value) (args : list value) (um : umode) (w : world) {struct fuel} : outcome * world :=
-  match fuel with
-  | O => (OFuel, w)
-  | S f =>
+Definition call_body (cl : callT) (ex : execT) (fv : value) (args : list value) (um : umode) (w : world) : outcome * world :=
     match fv with
     | VFun (FScript id) =>
       match nth_error (w_funs w) id with
@@ -421,13 +423,13 @@ with call (fuel : nat) (fv : value) (args : list value) (um : umode) (w : world)
           | Some names => bind_args names (length names) 0 (fd_last fd) args w []
           | None => ([], w)
           end in
-        match exec f (fd_body fd) 0 [] (Some locals) um w1 with
+        match ex (fd_body fd) 0%nat [] (Some locals) um w1 with
         | (o, _, w2) => (o, w2)
         end
       | None => (OExc VNull (U "model: unbound script function"), w)
       end
     | VFun (FLib name) =>
-      match lib (fun fv' args' w' => call f fv' args' um w') name args w with
+      match lib (fun fv' args' w' => cl fv' args' um w') name args w with
       | (LVal v, w1) => (OVal v, w1)
       | (LArgs ret msg, w1) => (OExc ret msg, w1)
       | (LRaise msg, w1) => (OExc VNull msg, w1)
@@ -436,63 +438,10 @@ with call (fuel : nat) (fv : value) (args : list value) (um : umode) (w : world)
       | (LOracle, w1) => (OOracle, w1)
       end
     | _ => (OExc VNull (U "object is not callable"), w)        (* TypeError *)
-    end
-  end
+    end.
 
-(* _execute_script_helper(statements, options, locals_) from statement index pc, with the label cache *)
-with exec (fuel : nat) (code : list stmt) (pc : nat) (cache : list (str * nat)) (loc : option env) (um : umode) (w : world)
-          {struct fuel} : xres :=
-  match fuel with
-  | O => (OFuel, loc, w)
-  | S f =>
-    match nth_error code pc with
-    | None => (OVal VNull, loc, w)                             (* ran off the end: return None *)
-    | Some st =>
-      let w := upd_count w (w_count w + 1) in
-      if (0 <? c_max cfg) && (c_max cfg <? w_count w) then (ORt (msg_exceeded (c_max cfg)), loc, w)
-      else
-        match st with
-        | SExpr name e =>
-          match eval f e loc false um w with
-          | (OVal v, w1) =>
-            match name with
-            | None => exec f code (S pc) cache loc um w1
-            | Some x =>
-              match loc with
-              | Some l => exec f code (S pc) cache (Some (env_set x v l)) um w1
-              | None => exec f code (S pc) cache None um (upd_globals w1 (env_set x v (w_globals w1)))
-              end
-            end
-          | (o, w1) => (o, loc, w1)
-          end
-        | SJump label cond =>
-          let taken :=
-            match cond with
-            | None => (inr true, w)
-            | Some c => match eval f c loc false um w with (OVal v, w1) => (inr (truthy w1 v), w1) | (o, w1) => (inl o, w1) end
-            end in
-          match taken with
-          | (inl o, w1) => (o, loc, w1)
-          | (inr false, w1) => exec f code (S pc) cache loc um w1
-          | (inr true, w1) =>
-            match assoc label cache with
-            | Some ix => exec f code (S ix) cache loc um w1
-            | None =>
-              match find_label label code with
-              | Some ix => exec f code (S ix) ((label, ix) :: cache) loc um w1
-              | None => (ORt (msg_unknown_label label), loc, w1)
-              end
-            end
-          end
-        | SReturn None => (OVal VNull, loc, w)
-        | SReturn (Some e) => match eval f e loc false um w with (o, w1) => (o, loc, w1) end
-        | SLabel _ => exec f code (S pc) cache loc um w
-        | SFunction name args _ lastarg body =>
-          let id := length (w_funs w) in
-          let w1 := upd_funs w (w_funs w ++ [{| fd_name := name; fd_args := args; fd_last := lastarg; fd_body := body |}]) in
-          exec f code (S pc) cache loc um (upd_globals w1 (env_set name (VFun (FScript id)) (w_globals w1)))
-        | SInclude incs =>
-          let fix run_incs (l : list (str * bool)) (w0 : world) : option outcome * world :=
+(* the include statement: for each include, resolve, fetch, parse, (debug) lint, run in global scope under a re-based urlFn *)
+Fixpoint run_incs (ex : execT) (um : umode) (l : list (str * bool)) (w0 : world) : option outcome * world :=
             match l with
             | [] => (None, w0)
             | (u, sys) :: t =>
@@ -522,8 +471,8 @@ with exec (fuel : nat) (code : list stmt) (pc : nat) (cache : list (str * nat)) 
                         fold_left (fun acc s => add_log acc (U "BareScript:     " ++ s)) ws w'
                       end
                     else w1 in
-                  match exec f sc 0 [] None (UBase url) w2 with
-                  | (OVal _, _, w3) => run_incs t w3
+                  match ex sc 0%nat [] None (UBase url) w2 with
+                  | (OVal _, _, w3) => run_incs ex um t w3
                   | (o, _, w3) => (Some o, w3)
                   end
                 | RErr pe => (Some (OParse pe url), w1)
@@ -531,13 +480,83 @@ with exec (fuel : nat) (code : list stmt) (pc : nat) (cache : list (str * nat)) 
                 | RFuel => (Some OFuel, w1)
                 end
               end
+            end.
+
+(* one iteration of the statement loop of _execute_script_helper at statement index pc, with the label cache *)
+Definition exec_body (ev : evalT) (ex : execT) (code : list stmt) (pc : nat) (cache : list (str * nat)) (loc : option env)
+           (um : umode) (w : world) : xres :=
+    match nth_error code pc with
+    | None => (OVal VNull, loc, w)                             (* ran off the end: return None *)
+    | Some st =>
+      let w := upd_count w (w_count w + 1) in
+      if (0 <? c_max cfg) && (c_max cfg <? w_count w) then (ORt (msg_exceeded (c_max cfg)), loc, w)
+      else
+        match st with
+        | SExpr name e =>
+          match ev e loc false um w with
+          | (OVal v, w1) =>
+            match name with
+            | None => ex code (S pc) cache loc um w1
+            | Some x =>
+              match loc with
+              | Some l => ex code (S pc) cache (Some (env_set x v l)) um w1
+              | None => ex code (S pc) cache None um (upd_globals w1 (env_set x v (w_globals w1)))
+              end
+            end
+          | (o, w1) => (o, loc, w1)
+          end
+        | SJump label cond =>
+          let taken :=
+            match cond with
+            | None => (inr true, w)
+            | Some c => match ev c loc false um w with (OVal v, w1) => (inr (truthy w1 v), w1) | (o, w1) => (inl o, w1) end
             end in
-          match run_incs incs w with
-          | (None, w1) => exec f code (S pc) cache loc um w1
+          match taken with
+          | (inl o, w1) => (o, loc, w1)
+          | (inr false, w1) => ex code (S pc) cache loc um w1
+          | (inr true, w1) =>
+            match assoc label cache with
+            | Some ix => ex code (S ix) cache loc um w1
+            | None =>
+              match find_label label code with
+              | Some ix => ex code (S ix) ((label, ix) :: cache) loc um w1
+              | None => (ORt (msg_unknown_label label), loc, w1)
+              end
+            end
+          end
+        | SReturn None => (OVal VNull, loc, w)
+        | SReturn (Some e) => match ev e loc false um w with (o, w1) => (o, loc, w1) end
+        | SLabel _ => ex code (S pc) cache loc um w
+        | SFunction name args _ lastarg body =>
+          let id := length (w_funs w) in
+          let w1 := upd_funs w (w_funs w ++ [{| fd_name := name; fd_args := args; fd_last := lastarg; fd_body := body |}]) in
+          ex code (S pc) cache loc um (upd_globals w1 (env_set name (VFun (FScript id)) (w_globals w1)))
+        | SInclude incs =>
+          match run_incs ex um incs w with
+          | (None, w1) => ex code (S pc) cache loc um w1
           | (Some o, w1) => (o, loc, w1)
           end
         end
-    end
+    end.
+
+(* (the recursive calls are eta-expanded so that call-by-value evaluation does not build the whole tower of closures) *)
+Fixpoint eval (fuel : nat) : evalT :=
+  match fuel with
+  | O => fun _ _ _ _ w => (OFuel, w)
+  | S f => fun e loc bi um w =>
+    eval_body (fun e' loc' bi' um' w' => eval f e' loc' bi' um' w') (fun fv' a' um' w' => call f fv' a' um' w') e loc bi um w
+  end
+with call (fuel : nat) : callT :=
+  match fuel with
+  | O => fun _ _ _ w => (OFuel, w)
+  | S f => fun fv args um w =>
+    call_body (fun fv' a' um' w' => call f fv' a' um' w') (fun c' p' k' l' um' w' => exec f c' p' k' l' um' w') fv args um w
+  end
+with exec (fuel : nat) : execT :=
+  match fuel with
+  | O => fun _ _ _ loc _ w => (OFuel, loc, w)
+  | S f => fun code pc cache loc um w =>
+    exec_body (fun e' loc' bi' um' w' => eval f e' loc' bi' um' w') (fun c' p' k' l' um' w' => exec f c' p' k' l' um' w') code pc cache loc um w
   end.
 
 End Interp.
@@ -551,6 +570,6 @@ Definition world0 (g : env) : world :=
 
 Definition execute_script cfg lib url_rel lint_lines (fuel : nat) (sc : script) (w : world) : outcome * world :=
   let w1 := upd_count (upd_globals w (inject_library (w_globals w))) 0 in
-  match exec cfg lib url_rel lint_lines fuel sc 0 [] None UHost w1 with
+  match exec cfg lib url_rel lint_lines fuel sc 0%nat [] None UHost w1 with
   | (o, _, w2) => (o, w2)
   end.
